@@ -35,6 +35,7 @@ pub struct S {
     pub mutated: bool,
 }
 
+#[verifier::inline]
 pub open spec fn isobj(s: S, p: GcPtr) -> bool { s.objs.dom().contains(p) }
 pub open spec fn is_white(c: GcColor) -> bool { c == GcColor::White || c == GcColor::WhiteWeak }
 pub open spec fn is_marked(c: GcColor) -> bool { c == GcColor::Gray || c == GcColor::Black }
